@@ -10,6 +10,8 @@
        n        length of the body the client was given (plain bytes)
        w        length of the body on the wire (after the client's compression)
        max      configured maximum request body size
+       (framing  "length" | "chunked": whether the request declares its length; carried for the record only --
+                no clause depends on it: the limit holds "whatever the framing")
    An observation o of the real execution (or of the model) is a record
        ran      the innermost handler was invoked
        status   status class the client saw: "2xx" "4xx" "5xx" or "none" (no response obtained)
